@@ -5,7 +5,7 @@ From Coq Require Import String.
 From Coq Require Import List Ascii ZArith Bool.
 From CGV Require Import Base.PyBase Base.PyVal Gen.DialectGen Dialect.DialectImpl Dialect.DialectDefs
      Dialect.DialectCheck Dialect.FaultModels.
-From CGV Require Reader.ReaderImpl Frag.StripImpl.
+From CGV Require Reader.ReaderImpl Frag.StripImpl Resolve.Pipeline.
 Import ListNotations.
 
 (** [impl]: the exception raised by MoleculeResolver.from_string(s).resolve_all() on the faulty
@@ -24,7 +24,10 @@ Inductive fcase :=
 | FRing (kind : nat) (evs : list ev) (m : Z) (tbl : table) (text : pystr) (impl : option err)
 (** coarse graph at the level at which the fragment is missing: nodes with fragname, edges with
     order, names of the defined fragments, the node that was renamed *)
-| FFrag (nodes : list (Z * pystr)) (edges : list (Z * Z * Z)) (dict : list pystr) (bad : Z) (impl : option err).
+| FFrag (nodes : list (Z * pystr)) (edges : list (Z * Z * Z)) (dict : list pystr) (bad : Z) (impl : option err)
+(** a fault in the BASE block, with the whole faulty string [s]: judged also through the resolver component's driver
+    model (Pipeline.from_string: find_blocks, read_cgsmiles on the first block BEFORE any fragment block is read) *)
+| FBase (c : fcase) (tbl : table) (s : pystr).
 
 Definition agree {A} (model : res A) (impl : option err) : bool :=
   match model, impl with
@@ -40,8 +43,24 @@ Definition annot_model (lk : nat) (fo : float_oracle) (text : pystr) : res attrs
   | _ => coarse_fragment_node fo text
   end.
 
-Definition corr_ok (c : fcase) : bool :=
+Fixpoint impl_of (c : fcase) : option err :=
   match c with
+  | FAnnot _ _ _ _ impl | FStrip _ _ _ _ _ impl | FRing _ _ _ _ _ impl | FFrag _ _ _ _ impl => impl
+  | FBase c _ _ => impl_of c
+  end.
+(** the fragment blocks are not read by this model: ENoReturn = "the base block was read" *)
+Definition base_driver (tbl : table) (s : pystr) : res Resolve.Pipeline.rstate :=
+  Resolve.Pipeline.from_string (Reader.ReaderImpl.read_cgsmiles (fo_of_table tbl)) (fun _ _ => Err ENoReturn) s false true.
+Definition base_driver_ok (tbl : table) (s : pystr) (impl : option err) : bool :=
+  match base_driver tbl s with
+  | Err ENoReturn => false          (* the faulty base block was accepted by the reader model *)
+  | Err e => agree (@Err unit e) impl
+  | Ok _ => false
+  end.
+
+Fixpoint corr_ok (c : fcase) : bool :=
+  match c with
+  | FBase c' tbl s => corr_ok c' && (match impl_of c' with None => true | Some _ => base_driver_ok tbl s (impl_of c') end)
   | FAnnot lk _ tbl text impl => agree (annot_model lk (fo_of_table tbl) text) impl
   | FStrip lk _ tbl text ftext impl =>
       agree (annot_model lk (fo_of_table tbl) text) impl &&
@@ -109,8 +128,9 @@ Definition dup_present (evs : list ev) (m : Z) : bool :=
   | _ => false
   end.
 
-Definition prop_fail (c : fcase) : nat :=
+Fixpoint prop_fail (c : fcase) : nat :=
   match c with
+  | FBase c' _ _ => prop_fail c'
   | FAnnot lk kind tbl text impl | FStrip lk kind tbl text _ impl =>
       let fo := fo_of_table tbl in
       if negb (fault_present lk kind fo text) then 90%nat
